@@ -941,10 +941,13 @@ def EDFA(input: optical_signal, G: float, NF: float, BW: float=None):
     if not isinstance(input, optical_signal):
         raise TypeError("`input` must be of type (optical_signal).")
 
-    output = optical_signal(signal=input.signal, noise=input.noise, n_pol=2) * np.sqrt( idb(G) )
+    g = np.sqrt( idb(G) )  # amplitude gain, applied to the signal and to the incoming noise alike
+    output = optical_signal(signal=input.signal*g, noise=None if input.noise is None else input.noise*g, n_pol=2)
     
     if input.n_pol == 1:
         output.signal[1] = np.zeros_like(output.signal[0])  # y-polarization of signal is set to zeros.
+        if output.noise is not None:
+            output.noise[1] = np.zeros_like(output.noise[0])  # the incoming noise lives in the x-polarization only.
 
     # generate ASE noise (2-polarizations with real and imaginary parts)
     # gv.fs is taken as initial bandwidth of noise 
